@@ -260,9 +260,9 @@ def fixed_histories():
 def generate_histories(rng, tier, prefix):
     cases = [Case(l, "fixed") for l in fixed_histories()]
     if tier == "quick":
-        plan = [("mixed", 150), ("late", 90), ("ip", 60), ("long", 40)]
+        plan = [("mixed", 500), ("late", 300), ("ip", 200), ("long", 120)]
     else:
-        plan = [("mixed", 1500), ("late", 900), ("ip", 600), ("long", 400)]
+        plan = [("mixed", 4000), ("late", 2500), ("ip", 1500), ("long", 1000)]
     k = 0
     for profile, n in plan:
         for _ in range(n):
